@@ -6,7 +6,7 @@ residuals 0 - for every axes/angle convention, circle orientation, with approxim
 coordinates given, omitted (acord) or perturbed, with/without instrument heights, with
 further consistent observations added, for all four algorithms.
 AcordModel.tla: networks built by TLC from the constructions of the documented strategy for approximate
-coordinates (polar by direction or angle, intersection, resection by directions or angles, trilateration,
+coordinates (polar by direction, angle or azimuth, intersection of directions or of an azimuth with a direction, resection by directions or angles, trilateration,
 two distances with a bearing, inserted traverse, in every order over 4-5 points, plus further observations); the model's closure says which points must be positioned; they are
 written without approximate coordinates, under names and document orders that hide the construction order.
 AcordHeights.tla: heights propagate along levelled differences, zenith angles (with slope distance, with
@@ -40,17 +40,19 @@ def run(ctx):
         st1[k] += st2[k]
     # approximate coordinates: every construction history of AcordModel.tla
     K1, K2 = '{"polar", "inter", "resect", "trilat", "trav"}', '{"polar", "polarA", "resectA", "ddb"}'
-    KALL = '{"polar", "polarA", "inter", "resect", "resectA", "trilat", "ddb", "trav"}'
+    KALL = '{"polar", "polarA", "polarZ", "inter", "interZ", "resect", "resectA", "trilat", "ddb", "trav"}'
+    K3 = '{"polar", "polarZ", "interZ", "inter"}'
     if q:
         ra, ca = acordnets.generate(ctx, "c06d", {"NP": 5, "MaxExtra": 0, "Kinds": K1, "Keep": 211, "Seed": ctx.seed})
         ra2, ca2 = acordnets.generate(ctx, "c06f", {"NP": 5, "MaxExtra": 0, "Kinds": K2, "Keep": 307, "Seed": ctx.seed})
-        ca, ra.distinct = ca + ca2, ra.distinct + ra2.distinct
-        rb, cb = acordnets.generate(ctx, "c06e", {"NP": 4, "MaxExtra": 1, "Kinds": KALL, "Keep": 97, "Seed": ctx.seed})
+        ra3, ca3 = acordnets.generate(ctx, "c06g", {"NP": 5, "MaxExtra": 0, "Kinds": K3, "Keep": 997, "Seed": ctx.seed})
+        ca, ra.distinct = ca + ca2 + ca3, ra.distinct + ra2.distinct + ra3.distinct
+        rb, cb = acordnets.generate(ctx, "c06e", {"NP": 4, "MaxExtra": 1, "Kinds": KALL, "Keep": 307, "Seed": ctx.seed})
     else:
         ra, ca = acordnets.generate(ctx, "c06d", {"NP": 5, "MaxExtra": 0, "Kinds": KALL, "Keep": 53, "Seed": ctx.seed})
         rb, cb = acordnets.generate(ctx, "c06e", {"NP": 4, "MaxExtra": 2, "Kinds": KALL, "Keep": 211, "Seed": ctx.seed})
     sta = acordnets.run(ctx, ca, algs=(None,) if q else (None, "gso", "svd", "cholesky"))
-    stb = acordnets.run(ctx, cb, algs=(None, "gso") if q else (None, "gso", "svd", "cholesky"))
+    stb = acordnets.run(ctx, cb, algs=(None,) if q else (None, "gso", "svd", "cholesky"))
     # heights: every spanning tree of levelled differences, zenith angle + slope distance pairs and vectors, in both directions
     KH = '{"dh", "zs", "zd", "za", "vec"}'
     if q:
